@@ -168,9 +168,9 @@ class ClipSim:
                 'any generated subset of optional connectivity, 0/1-based, fill representations; float / int / filled int variables on '
                 'every grid kind with 0-2 extra dimensions in any position; in-memory, file-backed, raw or dask-chunked) x 1-3 process '
                 'lifetimes of ops {make_mask, save_mask, load_mask, apply (to the original or to a second dataset with other data), '
-                'one-step clip, load, save, drop_work (also before load), reopen, select_variables, clip of a clip, retry} x storage '
-                'faults at the nth per-variable write / topology or coordinates file / open_mfdataset / dask task, crash at those points, '
-                'ack-then-crash after save, seeded dask completion order. Oracle: reference model (Space) stepped per op; selection read '
+                'one-step clip (also of a subset of the variables), load, save, drop_work (also before load), reopen, select_variables, clip of a clip, retry} x storage '
+                'faults at the nth per-variable write / topology or coordinates file / open_mfdataset / dask task / read of a lazily opened variable (once or persistent), crash at those points, '
+                'ack-then-crash after save, seeded dask completion and task-naming order; every input keeps a snapshot of its geometry taken through a second handle. Oracle: reference model (Space) stepped per op; selection read '
                 'from the mask emsarray produced. Non-trivial = at least one clipped result was loaded or reopened and judged. Distinct = '
                 'distinct (convention, materialisation, flags, per-lifetime op-kind sequence, fired faults, end kinds).')
 
